@@ -30,6 +30,70 @@ def _worker(job):
     return rec
 
 
+def run_jobs(jobs, nproc, hard_limit=None):
+    """one forked child per obligation (at most nproc at a time); a child that crashes (z3 aborts have been seen) or
+    exceeds its hard limit is reported as a harness error for that obligation instead of hanging the run"""
+    import pickle, select, signal, time as _t
+    recs, running, queue = [], {}, list(jobs)
+
+    def launch(job):
+        rfd, wfd = os.pipe()
+        pid = os.fork()
+        if pid == 0:
+            code = 0
+            try:
+                os.close(rfd)
+                rec = _worker(job)
+                data = pickle.dumps(rec)
+                view = memoryview(data)
+                while view:
+                    n = os.write(wfd, view[:1 << 16])
+                    view = view[n:]
+            except BaseException:
+                code = 3
+            finally:
+                os._exit(code)
+        os.close(wfd)
+        to = job[4].get("timeout", 20.0)
+        limit = hard_limit or max(600.0, 40 * to)
+        running[rfd] = dict(pid=pid, job=job, buf=bytearray(), t0=_t.time(), limit=limit)
+
+    def fail(job, why):
+        return {"name": job[3], "params": {}, "goals": [{"goal": "<worker>", "verdict": "harness-error", "reason": why}], "status": "harness-error", "notes": [], "paths": 0, "exec_s": 0, "wall_s": 0, "stats": {}}
+    while queue or running:
+        while queue and len(running) < nproc:
+            launch(queue.pop(0))
+        rl, _, _ = select.select(list(running), [], [], 1.0)
+        for fd in rl:
+            st = running[fd]
+            chunk = os.read(fd, 1 << 20)
+            if chunk:
+                st["buf"] += chunk
+                continue
+            os.close(fd)
+            try:
+                os.waitpid(st["pid"], 0)
+            except OSError:
+                pass
+            del running[fd]
+            try:
+                recs.append(pickle.loads(bytes(st["buf"])))
+            except Exception:
+                recs.append(fail(st["job"], "worker process died without a result (crash in the solver library or out of memory)"))
+        now = _t.time()
+        for fd, st in list(running.items()):
+            if now - st["t0"] > st["limit"]:
+                try:
+                    os.kill(st["pid"], signal.SIGKILL)
+                    os.waitpid(st["pid"], 0)
+                except OSError:
+                    pass
+                os.close(fd)
+                del running[fd]
+                recs.append(fail(st["job"], "obligation exceeded its hard limit of %.0f s and was killed" % st["limit"]))
+    return recs
+
+
 def source_digest(objs):
     out = []
     for o in objs:
@@ -76,6 +140,13 @@ def main(argv=None):
     sys.path.insert(0, ROOT)
     hmod = "harness.%s" % pid
     H = importlib.import_module(hmod)
+    # everything heavy is imported once here, before the per-obligation children are forked
+    for m in ("speckit.core", "speckit.core_cuda", "speckit.analysis", "speckit.schedulers", "speckit.utils", "speckit.dsp", "speckit.noise", "speckit.systems"):
+        try:
+            importlib.import_module(m)
+        except Exception as e:
+            print("HARNESS-ERROR import %s: %s" % (m, e))
+            return 2
     if replay_file:
         return do_replay(H, replay_file)
     obs = H.obligations(tier)
@@ -90,15 +161,7 @@ def main(argv=None):
         joblist.append((hmod, o["fn"], o["params"], o["name"], opts))
     # heavier first
     order = sorted(range(len(joblist)), key=lambda k: -obs[k].get("weight", 1))
-    recs = []
-    if jobs_n == 1 or len(joblist) == 1:
-        for k in order:
-            recs.append(_worker(joblist[k]))
-    else:
-        ctxm = mp.get_context("fork")
-        with ctxm.Pool(jobs_n, maxtasksperchild=8) as pool:
-            for rec in pool.imap_unordered(_worker, [joblist[k] for k in order], chunksize=1):
-                recs.append(rec)
+    recs = run_jobs([joblist[k] for k in order], jobs_n, hard_limit=float(os.environ.get("SYMX_JOB_LIMIT", "0")) or None)
     recs.sort(key=lambda r: r["name"])
     return report(pid, tier, seed, H, recs, time.time() - t0)
 
